@@ -49,8 +49,15 @@ BATCH = ["events"]  # name of the batch parameter of FSEventsEmitter.queue_event
 def fs_alias(text: str) -> str:
     b = re.escape(BATCH[0])
     text = re.sub(rf"\b{b}\.pop\(0\)", "ev", text)
-    text = re.sub(rf"next\(iter\(\((\w+) for \1 in {b} if \1\.is_renamed and \1\.inode == ev\.inode\)\), None\)", "dst", text)
+    text, n = re.subn(rf"next\(iter\(\((\w+) for \1 in {b} if \1\.is_renamed and \1\.inode == ev\.inode\)\), None\)", "dst", text)
+    if n:
+        NEXT_FORM[0] = True
+    # the same partner found by a search loop over the batch that leaves at the first match: the matching element itself
+    text = text.replace(f"$elem({BATCH[0]})", "dst")
     return text
+
+
+NEXT_FORM = [False]  # the partner is selected by next(iter(<genexpr with the is_renamed / same-inode test>)): the test is part of the term
 
 
 def _literal(t):
@@ -683,6 +690,8 @@ def run(ctx) -> None:
                 problems.append(f"the rename partner carries a modified / metadata flag: exactly one modified event under the new path expected, found {len(dmods)}")
             if DM is False and DMM is False and dmods:
                 problems.append("a modified event for a rename partner without modified / metadata flag")
+        if D and not NEXT_FORM[0] and not (c.get("dst.is_renamed") is True and (c.get("dst.inode == ev.inode") is True or c.get("ev.inode == dst.inode") is True)):
+            problems.append("the rename partner is taken from the batch without the test `is_renamed and same inode`: an unrelated record is consumed as the destination")
         if D:
             DR = c.get("dst.is_removed")
             ddel = [e for e in ems if e.kind == "E" and e.cls.endswith("DeletedEvent") and e.args and re.fullmatch(DST_RE, e.args[0])]
